@@ -164,7 +164,7 @@ func run(e *hx.Env) *hx.Report {
 		c.runOps("corpus-"+strings.TrimSuffix(filepath.Base(f), ".ops"), ops)
 	}
 	// 2. generated cases
-	for i := 0; i < e.N(160, 2500); i++ {
+	for i := 0; i < e.N(400, 2500); i++ {
 		ops := genPM(c, i)
 		c.runOps(fmt.Sprintf("pm%d", i), ops)
 		if i < 5 {
@@ -176,10 +176,10 @@ func run(e *hx.Env) *hx.Report {
 			c.runOps(fmt.Sprintf("pmx%d", i), ops)
 		}
 	}
-	for i := 0; i < e.N(150, 3000); i++ {
+	for i := 0; i < e.N(400, 3000); i++ {
 		c.runOps(fmt.Sprintf("m6-%d", i), genM6(c, i))
 	}
-	for i := 0; i < e.N(40, 600); i++ {
+	for i := 0; i < e.N(80, 600); i++ {
 		c.runOps(fmt.Sprintf("sk%d", i), genSK(c, i))
 	}
 	if e.Thorough() {
